@@ -428,6 +428,11 @@ def run(ctx, rep):
                                 vs.add(s[2]["variant"])
                     # a variant constructor handed over as a function value and applied to the parsed children
                     t_ = f.blocks[bb]["t"]
+                    if t_["k"] == "call" and t_["f"].get("via_pointer"):
+                        # already made a direct call of the constructor by Facts.inlined
+                        m_ = re.search(r"node::inner::Inner(?:::<.*>)?::(\w+)$", t_["f"].get("path") or "")
+                        if m_:
+                            vs.add(m_.group(1))
                     if t_["k"] == "call" and "indirect" in t_["f"]:
                         ct = Tk.operand(t_["f"]["indirect"])
                         while isinstance(ct, tuple) and ct and ct[0] in ("cast", "ref", "deref") and isinstance(ct[-1], tuple):
